@@ -1163,3 +1163,18 @@ def mentions(x: "Rat", a: Atom) -> bool:
         if d.kind == "sym" and tag in d.name:
             return True
     return False
+
+
+def full_key_text(k) -> str:
+    """Untruncated rendering of a key (atoms with their full names and arguments)."""
+    if isinstance(k, Rat):
+        return "{" + " ".join(_atom_full_text(T.get(i)) for i in sorted(k.atom_ids())) + "}"
+    if isinstance(k, tuple):
+        return "(" + ", ".join(full_key_text(x) for x in k) + ")"
+    return str(k)
+
+
+def _atom_full_text(a: Atom) -> str:
+    if a.kind == "sym":
+        return a.name
+    return "%s<%s>" % (a.name, ", ".join(full_key_text(x) for x in a.args))
